@@ -82,6 +82,33 @@ func (f *FieldCopyToGenerator) errAttrConversionFailure(path string, typ string)
 
 // Generate generates CopyTo fragment for a field of different kind
 func (f *FieldCopyToGenerator) Generate() *j.Statement {
+	if f.ParentIsOptionalEmbed && f.Kind != PrimitiveKind && f.Kind != CustomKind {
+		return j.Block(f.genOptionalEmbedStub(), f.generate())
+	}
+
+	return f.generate()
+}
+
+// genOptionalEmbedStub shadows obj with a copy which has an empty embedded parent when the
+// parent is nil, so that the fragment below reads zero values instead of dereferencing nil
+func (f *FieldCopyToGenerator) genOptionalEmbedStub() *j.Statement {
+	// obj := obj
+	// if obj.Embedded == nil {
+	//     c := *obj
+	//     c.Embedded = &Embedded{}
+	//     obj = &c
+	// }
+	parent := f.ParentIsOptionalEmbedFieldName
+	return j.Id("obj").Op(":=").Id("obj").Line().
+		If(j.Id("obj."+parent).Op("==").Nil()).Block(
+		j.Id("c").Op(":=").Op("*").Id("obj"),
+		j.Id("c."+parent).Op("=").Id("&"+f.ParentIsOptionalEmbedFullType+"{}"),
+		j.Id("obj").Op("=").Id("&c"),
+	)
+}
+
+// generate generates CopyTo fragment for a field of different kind
+func (f *FieldCopyToGenerator) generate() *j.Statement {
 	switch f.Kind {
 	case PrimitiveKind:
 		return f.genPrimitive()
